@@ -3,12 +3,12 @@ from . import common as C
 from . import numgen
 
 MANIFEST = dict(
-   technique="Lean 4 proof (exactness of compareNumeric/cmpIntFloat/multipleOfInts over all of Int and all dyadic floats) + translator (go/ast over pkg/validate, internal/checks, types/integer.go, types/float.go -> Gen/NumDispatch.lean, regenerated on every run; the model is proved equal to the interpreted tables) + differential correspondence of the model against pkg/validate and real numeric schemas",
-   text="Theorems c16_cmp / c16_int_cmp / c16_int_float_cmp / c16_multiple_int prove, for every operand pair of every Go numeric kind, that the transcribed comparison and integer-multiple algorithms equal the mathematical relation (NaN unordered). The model is tied to /repo (a) by translation: toNum_table, compareNumeric_table, cmpIntFloat_table, cmpOps_table, methods_table and the structure fingerprints are proved over the dispatch table regenerated from the source, so a re-routed arm, an edited range constant, a changed sign test or a re-wired schema method changes a proof obligation; (b) by running both on exhaustive 8-bit (thorough: 16-bit) enumerations and a 2^k-boundary grid over all 144 kind pairs, directly and through real schemas.",
-   note="Trusted: Lean kernel; axioms propext/Classical.choice/Quot.sound only; the Go harness and comparer; Go float64 operators and math.Trunc being IEEE-754. Float MultipleOf (documented epsilon rule) is modelled exactly on dyadic floats (Model/NumFloat.lean) and held to the theorems of Proofs/C16Float.lean (never rejects an exact multiple; zero/NaN accept nothing), not to exact divisibility. cmpInts/multipleOfInts/cmpFloats are tied by text fingerprint and generated cases; the translator harness/numgen is trusted.",
-   design="DESIGN.md §5 C16")
+   technique="Lean 4 proof (exactness of compareNumeric/cmpIntFloat/cmpInts/multipleOfInts over all of Int and all dyadic floats; the float epsilon rule bounded on both sides) + translator (go/ast over pkg/validate, internal/checks, types/integer.go, types/float.go -> Gen/NumDispatch.lean, regenerated on every run: switch tables, guards, constants, method wiring, and the BODIES of cmpInts/multipleOfInts/cmpFloats as terms of a small expression language with Go's int64/uint64 machine semantics; the model is proved equal to the interpreted tables) + differential correspondence of the model against pkg/validate and real numeric schemas",
+   text="Theorems c16_cmp / c16_int_cmp / c16_int_float_cmp / c16_multiple_int prove, for every operand pair of every Go numeric kind, that the transcribed comparison and integer-multiple algorithms equal the mathematical relation (NaN unordered). C16M.c16_float_methods_exact / c16_int_methods_exact state it method by method over the regenerated method tables (Min, Max, Gt, Gte, Lt, Lte, Positive, Negative, NonNegative, NonPositive, Safe) for every input, negative zero, infinities and NaN included (c16_float_specials). The model is tied to /repo (a) by translation: toNum_table, compareNumeric_table, cmpIntFloat_table, cmpOps_table, methods_table and C16A.cmpFloats_table / cmpInts_table / multipleOfInts_table (the regenerated bodies, interpreted, compute the model for every operand pair) are proved over what the translator extracts from the source, so a re-routed arm, an edited range constant, a changed sign test, a dropped conversion or a re-wired schema method changes a proof obligation; (b) by running both on exhaustive 8-bit (thorough: 16-bit) enumerations and a 2^k-boundary grid over all 169 kind pairs (uintptr included), directly and through real schemas, plus named-type, complex and *big.Int operands through the coerce.ToFloat64 path.",
+   note="Trusted: Lean kernel; axioms propext/Classical.choice/Quot.sound only; the Go harness, the translator harness/numgen and the comparer; Go float64 operators and math.Trunc being IEEE-754. Float MultipleOf (documented epsilon rule) is modelled exactly on dyadic floats (Model/NumFloat.lean) and held to C16F: never rejects an exact multiple (c16_float_multiple_complete), and whatever it accepts is within eps (up to one rounding: relative 2^-53, absolute 2^-1075) of a multiple (c16_float_multiple_sound_bound, remainder_is_distance) - not to exact divisibility. Operands toNum does not hold (complex, *big.Int, named types) follow the code's coerce.ToFloat64 path (model in Drv/C16.lean, generated cases only); *big.Int bounds are therefore compared through float64 (BigInt is not one of C16's schema types; fix proposed in pending/C16-bigint-exact-compare).",
+   design="DESIGN.md §5 C16; notes/C16.md")
 
-MODULES = ["Gozod.Proofs.C16", "Gozod.Proofs.C16Dispatch", "Gozod.Proofs.C16Float", "Gozod.Proofs.C16Arms"]
+MODULES = ["Gozod.Proofs.C16", "Gozod.Proofs.C16Dispatch", "Gozod.Proofs.C16Float", "Gozod.Proofs.C16Arms", "Gozod.Proofs.C16FloatBound", "Gozod.Proofs.C16Methods"]
 THEOREMS = [
     "Gozod.C16.c16_cmp", "Gozod.C16.c16_int_cmp", "Gozod.C16.c16_sign", "Gozod.C16.c16_float_cmp",
     "Gozod.C16.c16_nan_left", "Gozod.C16.c16_nan_right", "Gozod.C16.c16_neg_zero", "Gozod.C16.c16_zero_eq",
@@ -25,6 +25,10 @@ THEOREMS = [
     # cmpFloats / cmpInts / multipleOfInts: bodies translated clause by clause into Model/Arms.lean terms and interpreted
     "Gozod.C16A.cmpFloats_table", "Gozod.C16A.cmpInts_table", "Gozod.C16A.multipleOfInts_table",
     "Gozod.C16A.cmpInts_table_exact", "Gozod.C16A.multipleOfInts_table_exact",
+    # the epsilon rule, soundness side: an accepted value is within eps (up to one rounding) of a multiple
+    "Gozod.C16F.c16_float_multiple_sound_bound", "Gozod.C16F.remainder_is_distance", "Gozod.C16F.roundMag_lower", "Gozod.C16F.epsOf_pos",
+    # method by method over the regenerated method tables: every float input (-0, +-Inf, NaN), every integer input
+    "Gozod.C16M.c16_float_methods_exact", "Gozod.C16M.c16_int_methods_exact", "Gozod.C16M.c16_float_specials", "Gozod.C16M.specCmp_int",
 ]
 
 def key(op, impl, M, S):
@@ -59,9 +63,10 @@ def run(res):
         return res.finish()
     C.decide(res, "C16", data, key, "C16/compareNumeric+multipleOfInts", describe=describe)
     res.coverage["rule"] = ("exhaustive int8/uint8 inputs x int64 bounds in [-130,260] x 4 operators and divisors in [-17,17]; "
-        "grid x grid (0, +-1, +-2^k, +-2^k+-1, type limits and neighbours, float neighbours of 2^k, +-0, +-Inf, NaN) over all 12x12 kind pairs "
+        "grid x grid (0, +-1, +-2^k, +-2^k+-1, type limits and neighbours, float neighbours of 2^k, +-0, +-Inf, NaN) over all 13x13 kind pairs (uintptr included) "
         "directly against pkg/validate; and through real schemas (value/pointer constructors, value/pointer inputs, "
-        "Gt/Gte/Lt/Lte/Min/Max/Positive/Negative/NonNegative/NonPositive/MultipleOf/Step). distinct = distinct op lines.")
+        "Gt/Gte/Lt/Lte/Min/Max/Positive/Negative/NonNegative/NonPositive/MultipleOf/Step); xcmp/xmul: named-type, complex64/128 and *big.Int operands "
+        "against every built-in kind, both orders, every operator and MultipleOf. distinct = distinct op lines.")
     res.assumptions += [
         "Go's float64 <, > and math.Trunc are IEEE-754 (F.cmp / truncInt model them on exact dyadic rationals)",
         "float MultipleOf keeps the documented epsilon rule and is outside C16's exact-divisibility clause; it is modelled exactly (Model/NumFloat.lean: fmod exact, product and difference rounded to nearest-even) and compared case by case (fmul lines: the model observation is the oracle)",
